@@ -50,8 +50,14 @@ def inst_key(job):
     return "%s.%s.%s" % (job["fn"], short, hashlib.sha1(s.encode()).hexdigest()[:6])
 
 
+DEADLINE = [None]  # wall-clock deadline of the whole check (thorough tier): instances not started by then are inconclusive
+
+
 def run_job(job):
     eng = job.get("engine", "xh")
+    if DEADLINE[0] is not None and time.time() > DEADLINE[0]:
+        return {"status": "UNKNOWN", "message": "not explored: the wall-clock budget of this tier was used up before the instance started",
+                "job": job, "key": inst_key(job), "wall_s": 0.0, "paths": 0, "queries": 0}
     if eng == "xh":
         cmd = [PY, "-m", "engine.xh", "--module", job["module"], "--fn", job["fn"], "--inst", json.dumps(job["inst"]),
                "--timeout", str(job["timeout"])]
@@ -175,6 +181,10 @@ def main(argv=None):
     rng = random.Random(seed)
     rng.shuffle(jobs)
     jobs.sort(key=lambda j: -j["timeout"])  # long ones first
+    # total wall-clock budget: generous for the quick tier (never reached on 16 cores), 35 min for the thorough tier; what does not
+    # fit is reported as inconclusive in the evidence, never as held
+    budget = float(os.environ.get("VERIF_WALL_BUDGET", "3000" if tier == "quick" else "2100"))
+    DEADLINE[0] = time.time() + budget
     results = []
     with cf.ThreadPoolExecutor(max_workers=a.jobs) as ex:
         for r in ex.map(run_job, jobs):
